@@ -74,3 +74,7 @@ PLAN = {
         'random': coll_suite(COLL_KINDS),
     },
 }
+
+HOOK_COMMITS = ['f17c35b', '748a996', 'e526430', '6de2393']
+META = {}
+UNCLAIMED = {}
